@@ -152,7 +152,7 @@ def main():
             "evidence_file": "/verif/evidence/%s.json" % pid,
             "replay_cmd_template": "./check replay {path}",
             "engine": "fv",
-            "level_claimed": {"category": cat, "text": text, "design_ref": ref},
+            "level_claimed": {"category": cat, "text": text + " Extensions made after the seeding rounds (further key sources, entry points, sizes, encodings) are listed in DESIGN.md §7.7.", "design_ref": ref + ", §7.7"},
             "level_note": note,
             "technique": tech,
         })
